@@ -297,7 +297,7 @@ def c18(tier, seed):
     parts = (1, 2, 3, 4, 5, 6, 7)
     for name, cfg, std, ex in impls:
         for p in parts:
-            jobs.append(Job('c18_alloc.cpp', cfg, 'g++', std, 'plain', p, extra=ex, extra_srcs=['kit/mlog.c'], cflags_override=['-O2', '-x', 'none']))
+            jobs.append(Job('c18_alloc.cpp', cfg, 'g++', std, 'plain', p, extra=ex, extra_srcs=['kit/mlog.c'], cflags_override=['-O2']))
             jobs.append(Job('c18_alloc.cpp', cfg, 'g++', std, 'san', p, extra=ex))
         if tier == 'thorough' or std in (11, 17):
             for p in parts:
